@@ -257,6 +257,14 @@ fn separate_rules(text: &str) -> Result<Vec<String>, String> {
         Some(msg) => { return Err(msg); },
     }
 
+    // Text after the last period is an unfinished rule.
+    let rest = rule_str.trim();
+    if rest.len() > 0 {
+        let chrs = str_to_chars!(rest);
+        let msg = format!("Missing period after: {}", trim_error_line(&chrs));
+        return Err(msg);
+    }
+
     return Ok(rules);
 
 } // separate_rules
